@@ -25,6 +25,11 @@ func registerTimeNatives(in *Interp) {
 			lo = in.lastNow
 		}
 		in.addConstraint(tb.And(tb.SLe(lo, t), tb.SLe(t, tb.Int(1<<61))))
+		if in.firstNow == nil {
+			in.firstNow = t
+		} else if in.clockWindow != nil {
+			in.addConstraint(tb.SLe(t, tb.Add(in.firstNow, in.clockWindow)))
+		}
 		in.lastNow = t
 		in.noteAssumption("time.Now returns successive non-decreasing instants in [2^50, 2^61] ns; no overflow of instant arithmetic")
 		return in.timeVal(t)
@@ -80,6 +85,25 @@ func registerTimeNatives(in *Interp) {
 		return in.timeVal(tb.UF("unix_to_instant", BV(64), sec))
 	}
 	n["(time.Duration).String"] = func(in *Interp, fn *ssa.Function, args []Value) Value { return in.strConst("<duration>") }
+	n["(time.Duration).Seconds"] = func(in *Interp, fn *ssa.Function, args []Value) Value {
+		d := args[0].(*Term)
+		if d.IsConst() {
+			return tb.FPConst(f64bits(float64(d.SVal()) / 1e9))
+		}
+		return tb.Raw("dur.seconds", SFP, d)
+	}
+	n["os.Getenv"] = func(in *Interp, fn *ssa.Function, args []Value) Value {
+		in.noteAssumption("process environment is empty (os.Getenv returns \"\")")
+		return in.strConst("")
+	}
+	n["os.LookupEnv"] = func(in *Interp, fn *ssa.Function, args []Value) Value {
+		in.noteAssumption("process environment is empty (os.Getenv returns \"\")")
+		return TupleV{in.strConst(""), tb.False}
+	}
+	in.intrinsicsExtra["vClockWindow"] = func(in *Interp, args []Value) Value {
+		in.clockWindow = args[0].(*Term)
+		return nil
+	}
 	n["time.Sleep"] = nop
 	n["os.Getpid"] = func(in *Interp, fn *ssa.Function, args []Value) Value {
 		if in.pid == nil {
